@@ -373,6 +373,14 @@ impl Uci {
 
                     #[cfg(jgilchrist_tcheran_verif)]
                     {
+                        util::verif::gate(&format!("S{verif_search_id}:exit"));
+                        util::verif::mark(&format!("S{verif_search_id}:exit"));
+                    }
+
+                    #[cfg(jgilchrist_tcheran_verif)]
+                    {
+                        drop(persistent_state_handle);
+                        util::verif::done(&format!("S{verif_search_id}:exit"));
                         util::verif::gate(&format!("S{verif_search_id}:finish"));
                         util::verif::mark(&format!("S{verif_search_id}:finish"));
                     }
@@ -389,13 +397,7 @@ impl Uci {
                     is_stopped.set();
 
                     #[cfg(jgilchrist_tcheran_verif)]
-                    {
-                        util::verif::done(&format!("S{verif_search_id}:latch"));
-                        util::verif::gate(&format!("S{verif_search_id}:exit"));
-                        util::verif::mark(&format!("S{verif_search_id}:exit"));
-                        drop(persistent_state_handle);
-                        util::verif::done(&format!("S{verif_search_id}:exit"));
-                    }
+                    util::verif::done(&format!("S{verif_search_id}:latch"));
                 });
 
                 if self.block_on_threads {
